@@ -2,6 +2,7 @@
    Model: theories/RowHistory.v (row_history.py) on top of theories/RandRange.v.
    Proofs: proofs/RowHistoryP.v, proofs/RandRangeP.v.                                     *)
 From Coq Require Import ZArith List Permutation.
+From SFV Require Import C10Cases.
 From SFV Require Import Base RandRange RowHistory.
 From SFV.P Require Import RandRangeP RowHistoryP.
 Import ListNotations. Open Scope string_scope. Open Scope Z_scope.
